@@ -27,7 +27,9 @@ Classify(cfg, o, w) ==
     [] w.c = "C04.incomplete" /\ w.k = "held"                                -> "F1"
     [] w.c = "C02.fifo" /\ w.k = "in"                                        -> "G1"
     [] w.c = "C16.start_after_stop" /\ w.k = "in"                            -> "G2"
+    [] w.c = "C16.start_after_stop" /\ w.k = "rl_restart"                    -> "G3"
     [] w.c \in {"C08.regress", "C08.results_added"} /\ w.k = "newbus"        -> "F4"
+    [] w.c \in {"C03.incomplete", "C04.incomplete"} /\ w.k = "regressed"       -> "F4"
     [] w.c = "C09.event_bus" /\ w.k = "lastpath"                             -> "F9"
     [] w.c = "C01.missing" /\ <<w.b, w.e>> \in StrandedR(cfg, o)             -> "F2"
     [] w.c = "C01.missing" /\ <<w.b, w.e>> \in AbandonedC(o)                 -> "F5"
